@@ -65,20 +65,26 @@ def signedTab : Tab := { psize := 11, fi := [⟨40007, 1⟩], li := [⟨1, 0⟩,
 theorem signed_short_wrong : findLineSigned signedTab 10 = .ok 1 (-25531) ∧ findLine signedTab 10 = .ok 1 40005 := by
   decide
 
-/-! ## F1: code of variable initialisers gets no runs -/
+/-! ## the repaired defect F1: code of variable initialisers had no runs -/
 
-/-- `switch_to_line` does nothing at all while the initialiser block is being generated -/
-theorem init_block_ignored (st : Enc) (l a : Int) : switchToLine st l a aInitializer = st := by
+/-- while the initialiser block is generated `switch_to_line` only notes where a new line starts: the tables and the
+    bookkeeping of the program block are untouched -/
+theorem init_block_only_noted (st : Enc) (l a : Int) :
+    (switchToLine st l a aInitializer).liRev = st.liRev ∧ (switchToLine st l a aInitializer).lastSize = st.lastSize ∧
+    (switchToLine st l a aInitializer).lineBeing = st.lineBeing := by
   unfold switchToLine
-  simp [aInitializer, aProgram]
+  by_cases h : l = st.initLine <;> simp [h]
 
-/-- replay of the hook events of `int x_ = 5; int z_; ⏎ ⏎ int y_ = 10 / z_;` (probe `init`): the 14 bytes of `__INIT`
-(generated under lines 1 and 4) end up in one run under line 0 -/
+/-- replay of the real hook events of `… ⏎ ⏎ ⏎ mixed g_ = 10 / z_; int go() { return 1; }` (case `b-init`, initialiser
+    on line 7): the 9 bytes of `__INIT` placed at address 3 get their own run under line 7.  Before the fix the
+    table was the single run `12:0` and the error was reported at line 0. -/
 theorem init_replay :
-    (encRun [.begin, .addFile 1 "m.c", .sw 1 0 20, .sw 1 2 20, .sw 4 5 20, .sw 4 5 20, .sw 4 7 20, .sw 4 10 20,
-             .init 3 14, .fi 1 9, .sw (-1) 17 0, .fin 17]).li = [⟨17, 0⟩] := by
-  have h17 : runsOf 17 0 = [⟨17, 0⟩] := by rw [runsOf_le (by decide)]
+    (encRun [.begin, .addFile 1 "m.c", .sw 7 0 20, .init 3 9, .replay 7 3, .fi 1 9, .sw (-1) 12 0, .fin 12]).li
+      = [⟨3, 0⟩, ⟨9, 7⟩] := by
+  have h3 : runsOf 3 0 = [⟨3, 0⟩] := by rw [runsOf_le (by decide)]
+  have h9 : runsOf 9 7 = [⟨9, 7⟩] := by rw [runsOf_le (by decide)]
   have hu : u16 0 = 0 := by decide
-  simp [encRun, encStep, init_block_ignored, saveFileInfo, switchToLine, Enc.li, aProgram, hu, h17]
+  have hu7 : u16 7 = 7 := by decide
+  simp [encRun, encStep, placeInit, saveFileInfo, switchToLine, Enc.li, aProgram, aInitializer, hu, hu7, h3, h9]
 
 end NV.C18
